@@ -466,7 +466,7 @@ def r6_cases(ctx, n_model, n_oracle):
             metas.append({"password": pw.hex(), "salt": salt.hex(), "vector": (vec or b"").hex()})
     finally:
         pd.sha256, pd.sha384, pd.sha512, pd.PDFStandardSecurityHandlerV5._aes_cbc_encrypt = saved
-    bad = common.coq_cases("c10h", ["Model.Crypt", "Model.CryptR6", "Model.CryptRun"], "run_r6", cases, shard=6)
+    bad = common.coq_cases("c10h", ["Model.Crypt", "Model.CryptR6", "Model.CryptRun"], "run_r6", cases, shard=2)
     for i, shown in sorted(bad.items()):
         ctx.disagree("r6hash", metas[i], shown[:300], str(cases[i][1])[:300])
     # the reference implementation, on many more inputs (a slip in the loop bound shows in about one hash of forty)
